@@ -18,12 +18,13 @@ import time
 ROOT = os.path.dirname(os.path.dirname(os.path.abspath(__file__)))
 SPEC = os.path.join(ROOT, "spec")
 HARNESS = os.path.join(ROOT, "harness")
+HARNESS_EXTRA = os.path.join(ROOT, "harness-extra")     # specification beyond the listed properties (package vx)
 HARNESS_NOFAST = os.path.join(ROOT, "harness-nofast")   # lexpr without fast-float-parsing (package vhn)
 WORKROOT = os.path.join(ROOT, "work")
 EVIDENCE = os.path.join(ROOT, "evidence")
 KNOWN = os.path.join(ROOT, "known_findings.jsonl")
 TLA_CP = "/opt/veriftools/tla/tla2tools.jar:/opt/veriftools/tla/CommunityModules-deps.jar"
-TLA_LIB = os.pathsep.join([SPEC, os.path.join(SPEC, "mc"), os.path.join(SPEC, "trace")])
+TLA_LIB = os.pathsep.join([SPEC, os.path.join(SPEC, "mc"), os.path.join(SPEC, "trace"), os.path.join(SPEC, "extra")])
 
 MAX_VIOLATION_LINES = 25
 
@@ -52,7 +53,7 @@ def build_harness(package="vh", profile="release"):
     if profile == "release":
         cmd.append("--release")
     t0 = time.time()
-    hdir = HARNESS_NOFAST if package == "vhn" else HARNESS
+    hdir = HARNESS_NOFAST if package == "vhn" else HARNESS_EXTRA if package == "vx" else HARNESS
     p = subprocess.run(cmd, cwd=hdir, env=env, stdout=subprocess.PIPE, stderr=subprocess.STDOUT, text=True)
     if p.returncode != 0:
         sys.stderr.write(p.stdout[-6000:])
@@ -375,8 +376,10 @@ class Ctx:
             "known_findings_matched": self.n_known,
         }
         if not self.replaying:
-            os.makedirs(EVIDENCE, exist_ok=True)
-            with open(os.path.join(EVIDENCE, self.pid + ".json"), "w") as fh:
+            # X.. checks exercise specification beyond the listed properties; their evidence is kept apart
+            edir = EVIDENCE if self.pid.startswith("C") else os.path.join(ROOT, "extras", "evidence")
+            os.makedirs(edir, exist_ok=True)
+            with open(os.path.join(edir, self.pid + ".json"), "w") as fh:
                 json.dump(ev, fh, indent=1)
         if self.n_viol > MAX_VIOLATION_LINES:
             log("%d further violations not printed" % (self.n_viol - MAX_VIOLATION_LINES))
